@@ -5,6 +5,17 @@
    stack of saved maps). *)
 From stdpp Require Import gmap list sorting.
 Require Import DS.Registry DS.RegistryProof DS.Scope DS.ScopeSpec DS.ScopeProof.
+Require DS.ScopeTables DSG.GenUnset.
+
+(* the regenerated text of unset's script.ds and the scope name / alias / argument count given to
+   create_alias_command are the ones the model of `unset` is written for *)
+Theorem C11_tables :
+  DSG.GenUnset.gen_unset_understood = true /\
+  DSG.GenUnset.gen_unset_script = DS.ScopeTables.expected_unset_script /\
+  unset_scope = ([115;99;111;112;101;58;58]%N ++ DSG.GenUnset.gen_unset_scope)%list /\
+  DSG.GenUnset.gen_unset_aliases = [[117;110;115;101;116]%N] /\
+  DSG.GenUnset.gen_unset_min_args = 0%N.
+Proof. exact DS.ScopeTables.unset_tables_wf. Qed.
 
 (* for every history whose variable names stay out of unset's private scope, after every step the
    command's outcome and the whole variable map of M and S agree, and so do the final states
